@@ -27,7 +27,8 @@ RULE = ("schedules of 1-8 queued requests (GET/POST with bodies, unique path and
         "same host / other host / other scheme / https->http / missing; Content-Length, chunked or close-delimited "
         "framing; 0-3 passes of delay, 1-3 fragments; optional close after the reply; http and https clients; "
         "redirectable on/off; methods GET/HEAD/POST/PUT mixed per request (HEAD replies carry a non-zero Content-Length and no "
-        "body) and clients constructed with method HEAD/POST.  A case is non-trivial when >= 3 requests were queued and some reply was delayed, "
+        "body) and clients constructed with method HEAD/POST; requests with 0-3 query arguments (as qargs or written into the path) whose "
+        "redirect Locations re-assign none / some / all of the keys, also over multi-hop chains.  A case is non-trivial when >= 3 requests were queued and some reply was delayed, "
         "fragmented or a redirect")
 MODELLED = ["response parsing (real Respondent) is abstracted to 'a complete reply with status s and Location l was "
             "consumed in this pass'; request building (real Requester) to the path that appears on the wire",
@@ -139,10 +140,38 @@ class FakeSock:
         self.pending = keep
 
 
+KEYS = ["a", "b", "token"]
+
+
+def q_text(q):
+    return "&".join(f"{KEYS[k]}={v}" for k, v in q)
+
+
+def q_parse(text):
+    """'a=1&token=5' -> [[0, 1], [2, 5]] (order kept); unknown keys/values map to 99"""
+    out = []
+    for part in (text.split("&") if text else []):
+        k, _, v = part.partition("=")
+        out.append([KEYS.index(k) if k in KEYS else 99, int(v) if v.isdigit() else 99])
+    return out
+
+
+def split_target(path):
+    """'/t5?a=1' -> ('req', 5, [[0, 1]])"""
+    p, _, query = path.partition("?")
+    kind = "req" if p.startswith("/t") else "redir"
+    num = int(p[2:]) if p[2:].isdigit() else 9999
+    return kind, num, q_parse(query)
+
+
+def ev_q(ev):
+    return ev[3] if len(ev) > 3 else []
+
+
 def location_of(k, loc):
     if loc is None:
         return None
-    path = f"/r{k}"
+    path = f"/r{k}" + ("?" + q_text(loc["q"]) if loc.get("q") else "")
     if loc.get("host") is None:
         return path
     h, p = HOSTS[loc["host"]]
@@ -243,6 +272,12 @@ def _fake_classes():
     return FakeClient, FakeTls
 
 
+def _target_of(request):
+    kind, num, _ = split_target(request.get("path") or "/t9999")
+    q = [[KEYS.index(k) if k in KEYS else 99, int(v) if str(v).isdigit() else 99] for k, v in (request.get("qargs") or {}).items()]
+    return [kind == "redir", num, q]
+
+
 def run_impl(case):
     global _NET
     from hio.core import tcp
@@ -269,11 +304,14 @@ def run_impl(case):
             else:
                 ev = ["pass"]; extra += 1
             if ev[0] == "enq":
-                t, m = ev[1], ev_method(ev)
-                if m in ("POST", "PUT"):
-                    client.request(method=m, path=f"/t{t}", body=f"payload {t}".encode(), tag=t)
+                t, m, q = ev[1], ev_method(ev), ev_q(ev)
+                if len(ev) > 4 and ev[4] == "inpath" and q:   # the same arguments written into the path
+                    kw = {"path": f"/t{t}?{q_text(q)}", "qargs": {}}
                 else:
-                    client.request(method=m, path=f"/t{t}", tag=t)
+                    kw = {"path": f"/t{t}", "qargs": {KEYS[k]: str(v) for k, v in q}}
+                if m in ("POST", "PUT"):
+                    kw["body"] = f"payload {t}".encode()
+                client.request(method=m, tag=t, **kw)
                 continue
             net.tick()
             before = (len(client.responses), len(client.redirects))
@@ -292,11 +330,13 @@ def run_impl(case):
             hist = [[h["status"], h["request"].get("tag")] for h in r.get("redirects", [])]
             entries.append({"status": r["status"], "tag": r["request"].get("tag"), "errored": bool(r["errored"]),
                             "history": hist, "path": r["request"].get("path"), "method": r["request"].get("method"),
+                            "target": _target_of(r["request"]),
+                            "targets": [_target_of(h["request"]) for h in r.get("redirects", [])],
                             "body": bodies[i] if i < len(bodies) else None})
         wire = []
         for cid, sec, hi, path, verb in net.wire:
-            kind, num = ("req", int(path[2:])) if path.startswith("/t") else ("redir", int(path[2:]))
-            wire.append([cid, bool(sec), hi, kind, num, verb])
+            kind, num, q = split_target(path)
+            wire.append([cid, bool(sec), hi, kind, num, verb, q])
         return {"trace": trace, "entries": entries, "wire": wire, "escaped": escaped, "unsent": len(client.connector.txbs),
                 "final": [bool(client.waited), len(client.requests), len(client.redirects)],
                 "conn_https": isinstance(client.connector, tcp.ClientTls), "replies_used": net.k}
@@ -379,6 +419,22 @@ def oracle(case, obs):
         if e["method"] != m:
             return f"entry for request {o} carries method {e['method']}, queued as {m}"
         k += 1
+    # transparency: every request line on the wire asks for exactly its own target; a follow-up for exactly the Location
+    qof = {ev[1]: ev_q(ev) for ev in case["events"] if ev[0] == "enq"}
+    for w in obs["wire"]:
+        if w[3] == "req":
+            if w[6] != qof.get(w[4], []):
+                return f"request {w[4]} went on the wire with query {w[6]}, queued with {qof.get(w[4], [])}"
+        else:
+            loc = (replies[w[4]].get("loc") or {}) if w[4] < len(replies) else {}
+            if w[6] != (loc.get("q") or []):
+                return (f"redirect follow-up for reply {w[4]} was sent with query {w[6]} but the Location's query is "
+                        f"{loc.get('q') or []} (arguments of the redirected request carried over)")
+    for e in obs["entries"]:
+        want = qof.get(e["target"][1], []) if not e["target"][0] else \
+            ((replies[e["target"][1]].get("loc") or {}).get("q") or [] if e["target"][1] < len(replies) else [])
+        if e["target"][2] != want:
+            return f"entry's request carries query {e['target'][2]} but was sent for target query {want}"
     # nothing left unsent / unanswered once the schedule has drained
     closed = any(closes_after(replies[j] if j < len(replies) else {}, obs["wire"][j][5])
                  for j in range(min(obs["replies_used"], len(obs["wire"]))))
@@ -473,6 +529,14 @@ def directed():
         {"events": [["enq", 1, "POST"], ["enq", 2, "HEAD"], ["enq", 3, "PUT"], ["enq", 4, "HEAD"], ["enq", 5, "GET"]],
          "replies": [{}, {"status": 404}, {"status": 204}, {"status": 302, "loc": rel}, {}, {"status": 200, "blen": 2}]},
         {"events": [["enq", 1, "HEAD"], ["enq", 2, "GET"]], "replies": [{"status": 301, "loc": {"host": 1, "https": False}}, {"blen": 2}, {}]},
+        # query arguments: the Location re-assigns some / none / all keys; multi-hop; relative and absolute
+        {"events": [["enq", 1, "GET", [[2, 7], [0, 1]]], ["enq", 2, "GET", [[1, 4]]]],
+         "replies": [{"status": 302, "loc": {"host": None, "q": [[0, 2]]}}, {}, {}]},
+        {"events": [["enq", 1, "GET", [[2, 7]]], ["enq", 2, "GET"]],
+         "replies": [{"status": 302, "loc": {"host": None}}, {}, {}]},
+        {"events": [["enq", 1, "GET", [[0, 1], [1, 2]], "inpath"], ["enq", 2, "POST", [[2, 9]]]],
+         "replies": [{"status": 301, "loc": {"host": 1, "https": False, "q": [[0, 3]]}}, {"status": 307, "loc": {"host": None, "q": [[1, 5]]}},
+                     {"status": 303, "loc": {"host": None}}, {}, {"status": 302, "loc": {"host": 1, "https": False, "q": [[2, 9], [0, 0]]}}, {}]},
     ]
 
 
@@ -481,7 +545,12 @@ def gen_case(rng):
     tags = rng.sample(range(1, 60), n)
     events = []
     for t in tags:
-        events.append(["enq", t, rng.choices(METHODS, [5, 3, 2, 1])[0]])
+        ev = ["enq", t, rng.choices(METHODS, [5, 3, 2, 1])[0]]
+        if rng.random() < 0.5:
+            ev.append([[k, rng.randrange(10)] for k in rng.sample(range(3), rng.randint(1, 3))])
+            if rng.random() < 0.25:
+                ev.append("inpath")
+        events.append(ev)
         for _ in range(rng.choice([0, 0, 0, 1, 2, 4])):
             events.append(["pass"])
     if rng.random() < 0.3:
@@ -498,6 +567,8 @@ def gen_case(rng):
                 r["loc"] = {"host": None}
             elif y < 0.9:
                 r["loc"] = {"host": rng.randrange(3), "https": rng.random() < (0.7 if https else 0.3)}
+            if "loc" in r and rng.random() < 0.6:
+                r["loc"]["q"] = [[k, rng.randrange(10)] for k in rng.sample(range(3), rng.randint(1, 3))]
             # else: no Location
         else:
             r["status"] = rng.choice([200, 200, 200, 404, 500, 304, 308])
@@ -515,7 +586,7 @@ def gen_case(rng):
         if rng.random() < 0.2:
             r["blen"] = rng.choice([0, 3, 40])
         replies.append(r)
-    case = {"events": events, "replies": replies, "drain": 6 + 5 * len(replies)}
+    case = {"events": events, "replies": replies, "drain": 12 + 6 * (len(replies) + n)}
     if https:
         case["https"] = True
     if rng.random() < 0.15:
@@ -562,6 +633,14 @@ def distribution(cases, obs):
 
 # --------------------------------------------------------------------------- Gallina emitter
 
+def _q(q):
+    return coq_list(["(%s, %s)" % (coq_N(_n(k)), coq_N(_n(v))) for k, v in q], "N * N")
+
+
+def _tg(t):
+    return "(%s, %s, %s)" % (coq_bool(bool(t[0])), coq_N(_n(t[1])), _q(t[2]))
+
+
 def _n(x):
     """status None (unparsable reply) is emitted as 0; the oracle has already failed such a case"""
     return x if isinstance(x, int) and x >= 0 else 0
@@ -592,8 +671,8 @@ def to_coq(case, obs):
             if loc is None:
                 l = "(@None HttpClient.location)"
             else:
-                l = "(Some {| HttpClient.l_host := %s; HttpClient.l_https := %s |})" % (
-                    coq_option(loc.get("host"), coq_N, "N"), coq_bool(bool(loc.get("https"))))
+                l = "(Some {| HttpClient.l_host := %s; HttpClient.l_https := %s; HttpClient.l_query := %s |})" % (
+                    coq_option(loc.get("host"), coq_N, "N"), coq_bool(bool(loc.get("https"))), _q(loc.get("q") or []))
             verb = obs["wire"][k][5] if k < len(obs["wire"]) else "GET"
             closes = closes_after(r, verb)
             evs.append("(HttpClient.Pass (Some {| HttpClient.rp_id := %s; HttpClient.rp_status := %s; HttpClient.rp_loc := %s; "
@@ -603,18 +682,22 @@ def to_coq(case, obs):
             evs.append("(HttpClient.Pass None)")
     tr = coq_list(["(%s, %s, %s, %s)" % (coq_bool(t[1]), coq_N(t[2]), coq_N(t[3]), coq_N(t[4])) for t in trace],
                   "bool * N * N * N")
-    ents = coq_list(["{| HttpClient.e_status := %s; HttpClient.e_tag := %s; HttpClient.e_errored := %s; HttpClient.e_history := %s |}" % (
+    ents = coq_list(["{| HttpClient.e_status := %s; HttpClient.e_tag := %s; HttpClient.e_errored := %s; HttpClient.e_history := %s; "
+                     "HttpClient.e_target := %s; HttpClient.e_targets := %s |}" % (
         coq_N(_n(e["status"])), coq_option(_t(e["tag"]), coq_N, "N"), coq_bool(e["errored"]),
-        coq_list(["(%s, %s)" % (coq_N(_n(h[0])), coq_option(_t(h[1]), coq_N, "N")) for h in e["history"]], "N * option N"))
+        coq_list(["(%s, %s)" % (coq_N(_n(h[0])), coq_option(_t(h[1]), coq_N, "N")) for h in e["history"]], "N * option N"),
+        _tg(e["target"]), coq_list([_tg(x) for x in e["targets"]], "HttpClient.target"))
         for e in obs["entries"]], "HttpClient.entry")
-    wire = coq_list(["{| HttpClient.w_conn := %s; HttpClient.w_https := %s; HttpClient.w_host := %s; HttpClient.w_item := %s |}" % (
+    wire = coq_list(["{| HttpClient.w_conn := %s; HttpClient.w_https := %s; HttpClient.w_host := %s; HttpClient.w_item := %s; HttpClient.w_q := %s |}" % (
         coq_N(w[0]), coq_bool(w[1]), coq_N(w[2]),
-        ("(HttpClient.WReq %s)" if w[3] == "req" else "(HttpClient.WRedir %s)") % coq_N(w[4])) for w in obs["wire"]],
+        ("(HttpClient.WReq %s)" if w[3] == "req" else "(HttpClient.WRedir %s)") % coq_N(w[4]), _q(w[6])) for w in obs["wire"]],
         "HttpClient.wentry")
     meths = coq_list(["(%s, %s)" % (coq_N(ev[1]), coq_N(METHODS.index(ev_method(ev)))) for ev in case["events"] if ev[0] == "enq"], "N * N")
+    qas = coq_list(["(%s, %s)" % (coq_N(ev[1]), _q(ev_q(ev))) for ev in case["events"] if ev[0] == "enq"], "N * HttpClient.qargs")
     return ("{| HttpClient.c_https := %s; HttpClient.c_redirectable := %s; HttpClient.c_cmethod := %s; HttpClient.c_methods := %s; "
+            "HttpClient.c_qargs := %s; "
             "HttpClient.c_events := %s; HttpClient.c_trace := %s; "
             "HttpClient.c_entries := %s; HttpClient.c_wire := %s |}" % (
                 coq_bool(bool(case.get("https"))), coq_bool(case.get("redirectable", True)),
-                coq_N(METHODS.index(case.get("cmethod", "GET"))), meths,
+                coq_N(METHODS.index(case.get("cmethod", "GET"))), meths, qas,
                 coq_list(evs, "HttpClient.event"), tr, ents, wire))
